@@ -39,7 +39,7 @@ impl ItemSourceKind {
         match self {
             ItemSourceKind::Struct => {
                 let member = field.member();
-                quote_spanned!(span=> (this.#member))
+                quote_spanned!(span=> (__this.#member))
             }
             ItemSourceKind::Enum => {
                 let ident = field.make_ident("_this");
@@ -52,7 +52,7 @@ impl ItemSourceKind {
         match self {
             ItemSourceKind::Struct => {
                 let member = field.member();
-                quote_spanned!(span=> (other.#member))
+                quote_spanned!(span=> (__other.#member))
             }
             ItemSourceKind::Enum => {
                 let ident = field.make_ident("_other");
@@ -144,13 +144,13 @@ fn build_compare_op(
             quote! {
                 const _: () = {
                     trait __AssertFieldsEq {
-                        fn _f(this: &Self);
+                        fn _f(__this: &Self);
                     }
                     #[allow(clippy::double_parens)]
                     #[allow(unused_parens)]
                     #[allow(non_snake_case)]
                     impl #impl_g __AssertFieldsEq for #this_ty #wheres {
-                        fn _f(this: &Self) {
+                        fn _f(__this: &Self) {
                             #body
                         }
                     }
@@ -222,7 +222,7 @@ fn build_partial_eq_body(
                 arms.push(quote!((#pat_this, #pat_other) => { #body }))
             }
             quote! {
-                match (self, other) {
+                match (self, __other) {
                     #(#arms)*
                     _ => false,
                 }
@@ -230,7 +230,7 @@ fn build_partial_eq_body(
         }
     };
     Ok(quote! {
-        fn eq(&self, other: &Self) -> ::core::primitive::bool {
+        fn eq(&self, __other: &Self) -> ::core::primitive::bool {
             #body
         }
     })
@@ -252,8 +252,8 @@ fn build_partial_eq_expr(
     let build_expr_by_eq = |by: &Expr| {
         quote! {
             {
-                fn #fn_ident<__T: ?::core::marker::Sized>(this: &__T, other: &__T, eq: impl ::core::ops::Fn(&__T, &__T) -> ::core::primitive::bool) -> ::core::primitive::bool {
-                    eq(this, other)
+                fn #fn_ident<__T: ?::core::marker::Sized>(__this: &__T, __other: &__T, __eq: impl ::core::ops::Fn(&__T, &__T) -> ::core::primitive::bool) -> ::core::primitive::bool {
+                    __eq(__this, __other)
                 }
                 #fn_ident(&#this, &#other, #by)
             }
@@ -279,8 +279,8 @@ fn build_partial_eq_expr(
     if let Some(by) = &cmp.partial_ord.by {
         return Ok(quote! {
             {
-                fn #fn_ident<__T: ?::core::marker::Sized>(this: &__T, other: &__T, partial_cmp: impl ::core::ops::Fn(&__T, &__T) -> ::core::option::Option<::core::cmp::Ordering>) -> ::core::primitive::bool {
-                    partial_cmp(this, other) == ::core::option::Option::Some(::core::cmp::Ordering::Equal)
+                fn #fn_ident<__T: ?::core::marker::Sized>(__this: &__T, __other: &__T, __partial_cmp: impl ::core::ops::Fn(&__T, &__T) -> ::core::option::Option<::core::cmp::Ordering>) -> ::core::primitive::bool {
+                    __partial_cmp(__this, __other) == ::core::option::Option::Some(::core::cmp::Ordering::Equal)
                 }
                 #fn_ident(&#this, &#other, #by)
             }
@@ -294,8 +294,8 @@ fn build_partial_eq_expr(
     if let Some(by) = &field.hattrs.cmp.ord.by {
         return Ok(quote! {
             {
-                fn #fn_ident<__T: ?::core::marker::Sized>(this: &__T, other: &__T, cmp: impl ::core::ops::Fn(&__T, &__T) -> ::core::cmp::Ordering) -> ::core::primitive::bool {
-                    cmp(this, other) == ::core::cmp::Ordering::Equal
+                fn #fn_ident<__T: ?::core::marker::Sized>(__this: &__T, __other: &__T, __cmp: impl ::core::ops::Fn(&__T, &__T) -> ::core::cmp::Ordering) -> ::core::primitive::bool {
+                    __cmp(__this, __other) == ::core::cmp::Ordering::Equal
                 }
                 #fn_ident(&#this, &#other, #by)
             }
@@ -371,7 +371,7 @@ fn build_eq_body(
                 arms.push(quote!(#pat_this => { #body }));
             }
             Ok(quote! {
-                match this {
+                match __this {
                     #(#arms)*
                     _ => { }
                 }
@@ -455,7 +455,7 @@ fn build_partial_ord_body(
             body.extend(quote! {
                 match #expr {
                     ::core::option::Option::Some(::core::cmp::Ordering::Equal) => {}
-                    o => return o,
+                    __o => return __o,
                 }
             });
             use_bounds = field
@@ -483,18 +483,18 @@ fn build_partial_ord_body(
             }
             let to_index_fn = build_to_index_fn(variants);
             quote! {
-                match (self, other) {
+                match (self, __other) {
                     #(#arms)*
-                    (this, other) => {
+                    (__this, __other) => {
                         #to_index_fn
-                        ::core::cmp::PartialOrd::partial_cmp(&to_index(this), &to_index(other))
+                        ::core::cmp::PartialOrd::partial_cmp(&__to_index(__this), &__to_index(__other))
                     },
                 }
             }
         }
     };
     Ok(quote! {
-        fn partial_cmp(&self, other: &Self) -> ::core::option::Option<::core::cmp::Ordering> {
+        fn partial_cmp(&self, __other: &Self) -> ::core::option::Option<::core::cmp::Ordering> {
             #body
         }
     })
@@ -517,11 +517,11 @@ fn build_partial_ord_expr(
         return Ok(quote! {
             {
                 fn #fn_ident<__T: ?::core::marker::Sized>(
-                    this: &__T,
-                    other: &__T,
-                    partial_cmp: impl ::core::ops::Fn(&__T, &__T) -> ::core::option::Option<::core::cmp::Ordering>)
+                    __this: &__T,
+                    __other: &__T,
+                    __partial_cmp: impl ::core::ops::Fn(&__T, &__T) -> ::core::option::Option<::core::cmp::Ordering>)
                  -> ::core::option::Option<::core::cmp::Ordering> {
-                    partial_cmp(this, other)
+                    __partial_cmp(__this, __other)
                 }
                 #fn_ident(&#this, &#other, #by)
             }
@@ -536,11 +536,11 @@ fn build_partial_ord_expr(
         return Ok(quote! {
             {
                 fn #fn_ident<__T: ?::core::marker::Sized>(
-                    this: &__T,
-                    other: &__T,
-                    cmp: impl ::core::ops::Fn(&__T, &__T) -> ::core::cmp::Ordering)
+                    __this: &__T,
+                    __other: &__T,
+                    __cmp: impl ::core::ops::Fn(&__T, &__T) -> ::core::cmp::Ordering)
                  -> ::core::option::Option<::core::cmp::Ordering> {
-                    ::core::option::Option::Some(cmp(this, other))
+                    ::core::option::Option::Some(__cmp(__this, __other))
                 }
                 #fn_ident(&#this, &#other, #by)
             }
@@ -593,7 +593,7 @@ fn build_ord_body(
             body.extend(quote! {
                 match #expr {
                     ::core::cmp::Ordering::Equal => {}
-                    o => return o,
+                    __o => return __o,
                 }
             });
             use_bounds = field
@@ -622,18 +622,18 @@ fn build_ord_body(
             }
             let to_index_fn = build_to_index_fn(variants);
             quote! {
-                match (self, other) {
+                match (self, __other) {
                     #(#arms)*
-                    (this, other) => {
+                    (__this, __other) => {
                         #to_index_fn
-                        ::core::cmp::Ord::cmp(&to_index(this), &to_index(other))
+                        ::core::cmp::Ord::cmp(&__to_index(__this), &__to_index(__other))
                     },
                 }
             }
         }
     };
     Ok(quote! {
-        fn cmp(&self, other: &Self) -> ::core::cmp::Ordering {
+        fn cmp(&self, __other: &Self) -> ::core::cmp::Ordering {
             #body
         }
     })
@@ -656,11 +656,11 @@ fn build_ord_expr(
         return Ok(quote! {
             {
                 fn #fn_ident<__T: ?::core::marker::Sized>(
-                    this: &__T,
-                    other: &__T,
-                    cmp: impl ::core::ops::Fn(&__T, &__T) -> ::core::cmp::Ordering)
+                    __this: &__T,
+                    __other: &__T,
+                    __cmp: impl ::core::ops::Fn(&__T, &__T) -> ::core::cmp::Ordering)
                  -> ::core::cmp::Ordering {
-                    cmp(this, other)
+                    __cmp(__this, __other)
                 }
                 #fn_ident(&#this, &#other, #by)
             }
@@ -732,7 +732,7 @@ fn build_hash_body(
         }
     };
     Ok(quote! {
-        fn hash<__H: ::core::hash::Hasher>(&self, state: &mut __H) {
+        fn hash<__H: ::core::hash::Hasher>(&self, __state: &mut __H) {
             #body
         }
     })
@@ -754,12 +754,12 @@ fn build_hash_expr(
         return Ok(quote! {
             {
                 fn #fn_ident<__T: ?::core::marker::Sized, __H: ::core::hash::Hasher>(
-                    this: &__T,
-                    state: &mut __H,
-                    hash: impl ::core::ops::Fn(&__T, &mut __H)) {
-                    hash(this, state)
+                    __this: &__T,
+                    __state: &mut __H,
+                    __hash: impl ::core::ops::Fn(&__T, &mut __H)) {
+                    __hash(__this, __state)
                 }
-                #fn_ident(&#this, state, #by)
+                #fn_ident(&#this, __state, #by)
             }
         });
     }
@@ -791,7 +791,7 @@ fn build_hash_expr(
     }
 
     *field_used = true;
-    Ok(quote_spanned!(field.span()=> ::core::hash::Hash::hash(&(#this), state);))
+    Ok(quote_spanned!(field.span()=> ::core::hash::Hash::hash(&(#this), __state);))
 }
 
 pub(super) struct HelperAttributesForCompareOp {
@@ -1109,7 +1109,7 @@ impl Template {
     fn build_hash_stmt(&self, this: TokenStream) -> TokenStream {
         let this = self.apply(this);
         let span = Span::call_site().located_at(this.span());
-        quote_spanned!(span=> ::core::hash::Hash::hash(&(#this), state);)
+        quote_spanned!(span=> ::core::hash::Hash::hash(&(#this), __state);)
     }
 }
 fn build_to_index_fn(variants: &[VariantEntry]) -> TokenStream {
@@ -1119,8 +1119,8 @@ fn build_to_index_fn(variants: &[VariantEntry]) -> TokenStream {
         arms.push(quote!((#pat) => #index,));
     }
     quote! {
-        let to_index = |this: &Self| -> ::core::primitive::usize {
-            match this {
+        let __to_index = |__this: &Self| -> ::core::primitive::usize {
+            match __this {
                 #(#arms)*
                 _ => ::core::unreachable!(),
             }
@@ -1130,7 +1130,7 @@ fn build_to_index_fn(variants: &[VariantEntry]) -> TokenStream {
 
 fn build_eq_checker(this: TokenStream) -> TokenStream {
     quote_spanned!(this.span()=>{
-        fn _eq<__T: ::core::cmp::Eq + ?::core::marker::Sized>(_this: &__T) { }
+        fn _eq<__T: ::core::cmp::Eq + ?::core::marker::Sized>(__this: &__T) { }
         _eq(&(#this))
     })
 }
